@@ -73,6 +73,9 @@ theorem lex2_typ_facts (t : Lex2) (h : t.WF) :
   | identD n c cs => simp only [Lex2.typ]; exact ⟨by decide, fun e => absurd e (by decide), fun e => absurd e (by decide)⟩
   | urangeI u h0 hs0 h2 hs2 =>
     simp only [Lex2.typ]; exact ⟨by decide, fun e => absurd e (by decide), fun e => absurd e (by decide)⟩
+  | pctG sg b => simp only [Lex2.typ]; exact ⟨by decide, fun e => absurd e (by decide), fun e => absurd e (by decide)⟩
+  | dimG sg b c cs =>
+    simp only [Lex2.typ]; exact ⟨by decide, fun e => absurd e (by decide), fun e => absurd e (by decide)⟩
   | numS sg d ds =>
     simp only [Lex2.typ]; exact ⟨by decide, fun e => absurd e (by decide), fun e => absurd e (by decide)⟩
   | numF sg ip d ds =>
